@@ -318,7 +318,7 @@ pub fn property() -> Property {
                 name: "text",
                 plan: |t| match t {
                     Tier::Quick => Plan::Random { cases: 300_000, max_len: 200 },
-                    Tier::Thorough => Plan::Random { cases: 6_000_000, max_len: 400 },
+                    Tier::Thorough => Plan::Random { cases: 12_000_000, max_len: 400 },
                 },
                 case: case_text,
                 min_classes: &[("accepted", 5000), ("rejected", 5000), ("crlf", 1000), ("long-line", 20)],
@@ -327,7 +327,7 @@ pub fn property() -> Property {
                 name: "planted",
                 plan: |t| match t {
                     Tier::Quick => Plan::Random { cases: 100_000, max_len: 1200 },
-                    Tier::Thorough => Plan::Random { cases: 1_500_000, max_len: 3000 },
+                    Tier::Thorough => Plan::Random { cases: 3_000_000, max_len: 3000 },
                 },
                 case: case_planted,
                 min_classes: &[("unterminated-quote", 1000), ("bad-escape-quoted", 200), ("trailing-backslash", 200), ("quote-in-name", 1000), ("backslash-in-name", 1000), ("bang-alone", 1000), ("unknown-preprocess", 1000)],
